@@ -85,11 +85,19 @@ func FindRotLoops(fn *ssa.Function) []*RotLoop {
 // performs exactly one channel send on every path after its work function returned, and fn performs W blocking receives
 // before it returns. Then everything written by the workers happens-before the caller's reads.
 func (c *Ctx) JoinedFork(rule string, fn *ssa.Function) bool {
-	loops := FindRotLoops(fn)
-	var spawn *RotLoop
+	var loops []*cloop
+	for _, l := range FindRotLoops(fn) {
+		loops = append(loops, cloopOfRot(l))
+	}
+	for _, l := range FindLoops(fn) {
+		if l.FullRange {
+			loops = append(loops, cloopOfLoop(l))
+		}
+	}
+	var spawn *cloop
 	var goIns *ssa.Go
 	for _, l := range loops {
-		for b := range l.Body {
+		for b := range l.body {
 			for _, ins := range b.Instrs {
 				if g, ok := ins.(*ssa.Go); ok {
 					if goIns != nil && goIns != g {
@@ -114,31 +122,64 @@ func (c *Ctx) JoinedFork(rule string, fn *ssa.Function) bool {
 		c.R.Unknown(rule, Fn(fn), c.P.FuncPos(fn), "no counted loop starting the workers found (expected `for w := range workers { go ... }`)")
 		return false
 	}
-	W := spawn.Bound
-	// worker function
-	mc, ok := goIns.Call.Value.(*ssa.MakeClosure)
-	if !ok {
-		c.R.Unknown(rule, Fn(fn), c.Pos(goIns), "the goroutine body is not a closure")
+	W := spawn.bound
+	// worker function: a closure, or a named module function given everything as arguments
+	var wf *ssa.Function
+	outer := func(v ssa.Value) ssa.Value { return v } // maps a value of wf that denotes something of fn to fn's frame
+	if mc, ok := goIns.Call.Value.(*ssa.MakeClosure); ok {
+		wf = mc.Fn.(*ssa.Function)
+		outer = func(v ssa.Value) ssa.Value {
+			if u, ok := v.(*ssa.UnOp); ok && u.Op == token.MUL {
+				if fv, ok := u.X.(*ssa.FreeVar); ok {
+					for k, f := range wf.FreeVars {
+						if f == fv {
+							return chanID(mc.Bindings[k], true)
+						}
+					}
+				}
+			}
+			return nil
+		}
+	} else if f := goIns.Call.StaticCallee(); f != nil && prog.InModule(f) && f.Blocks != nil {
+		wf = f
+		outer = func(v ssa.Value) ssa.Value {
+			if p, ok := v.(*ssa.Parameter); ok {
+				for k, q := range wf.Params {
+					if q == p && k < len(goIns.Call.Args) {
+						return chanID(goIns.Call.Args[k], false)
+					}
+				}
+			}
+			return nil
+		}
+	} else {
+		c.R.Unknown(rule, Fn(fn), c.Pos(goIns), "the goroutine body is neither a closure nor a module function")
 		return false
 	}
-	wf := mc.Fn.(*ssa.Function)
-	// the work call: dynamic call of the function parameter of fn (through a cell)
+	// the work call: dynamic call of the function parameter of fn
+	isWorkParam := func(v ssa.Value) bool {
+		o := outer(v)
+		if o == nil {
+			return false
+		}
+		if inner, ok := an.ResolveCell(o); ok {
+			o = inner
+		}
+		if u, ok := o.(*ssa.UnOp); ok && u.Op == token.MUL {
+			if inner, ok := an.ResolveCell(u.X); ok {
+				o = inner
+			}
+		}
+		p, ok := o.(*ssa.Parameter)
+		return ok && p.Parent() == fn
+	}
 	var workCall ssa.CallInstruction
 	for _, ci := range Calls(wf, func(ci ssa.CallInstruction) bool {
 		cc := ci.Common()
 		if cc.IsInvoke() || cc.StaticCallee() != nil {
 			return false
 		}
-		u, ok := cc.Value.(*ssa.UnOp)
-		if !ok {
-			return false
-		}
-		inner, ok := an.ResolveCell(u.X)
-		if !ok {
-			return false
-		}
-		p, ok := inner.(*ssa.Parameter)
-		return ok && p.Parent() == fn
+		return isWorkParam(cc.Value)
 	}) {
 		if workCall != nil {
 			c.R.Unknown(rule, Fn(wf), c.Pos(ci), "the worker calls the work function more than once")
@@ -150,24 +191,27 @@ func (c *Ctx) JoinedFork(rule string, fn *ssa.Function) bool {
 		c.R.Unknown(rule, Fn(wf), c.P.FuncPos(wf), "the worker does not call the work function")
 		return false
 	}
-	// channel cells the worker sends on
-	sendCells := map[ssa.Value]bool{}
+	// channels (identified in fn's frame) the worker sends on
+	sendChans := map[ssa.Value]bool{}
 	isSend := func(i ssa.Instruction) bool {
 		s, ok := i.(*ssa.Send)
 		if !ok {
 			return false
 		}
-		if u, ok := s.Chan.(*ssa.UnOp); ok {
-			if fv, ok := u.X.(*ssa.FreeVar); ok {
-				for k, f := range wf.FreeVars {
-					if f == fv {
-						sendCells[mc.Bindings[k]] = true
-					}
-				}
-				return true
-			}
+		if o := outer(s.Chan); o != nil {
+			sendChans[o] = true
+			return true
 		}
 		return false
+	}
+	// a send on anything else is not understood
+	for _, b := range wf.Blocks {
+		for _, ins := range b.Instrs {
+			if _, ok := ins.(*ssa.Send); ok && !isSend(ins) {
+				c.R.Unknown(rule, Fn(wf), c.Pos(ins), "the worker sends on a channel that is not one of the helper's")
+				return false
+			}
+		}
 	}
 	// exactly one send after the work call on every path; none before
 	if x, path := an.Cut(an.CutQuery{From: an.After(workCall), Target: func(i ssa.Instruction) bool { _, ok := i.(*ssa.Return); return ok }, AcceptInstr: isSend}); x != nil {
@@ -190,19 +234,16 @@ func (c *Ctx) JoinedFork(rule string, fn *ssa.Function) bool {
 		}
 	}
 	// collector loop
-	var coll *RotLoop
+	var coll *cloop
 	var sel *ssa.Select
 	for _, l := range loops {
-		if l == spawn || l.Bound != W {
+		if l == spawn || !l.runs(W) {
 			continue
 		}
-		for b := range l.Body {
+		for b := range l.body {
 			for _, ins := range b.Instrs {
 				if s, ok := ins.(*ssa.Select); ok && s.Blocking {
 					coll, sel = l, s
-				}
-				if u, ok := ins.(*ssa.UnOp); ok && u.Op == token.ARROW {
-					coll = l
 				}
 			}
 		}
@@ -216,21 +257,20 @@ func (c *Ctx) JoinedFork(rule string, fn *ssa.Function) bool {
 			c.R.Unknown(rule, Fn(fn), c.Pos(sel), "the collector's select has a send case")
 			return false
 		}
-		u, ok := stt.Chan.(*ssa.UnOp)
-		if !ok || !sendCells[u.X] {
+		if !sendChans[chanID(stt.Chan, false)] {
 			c.R.Fail(rule, Fn(fn), c.Pos(sel), "the collector waits on a channel the workers do not send on", "receive on the workers' completion channels", nil)
 			return false
 		}
 	}
-	// every iteration passes the select; the loop is left only through the latch
-	if x, _ := an.Cut(an.CutQuery{From: an.Point{Block: coll.Head, Idx: 0}, Target: func(i ssa.Instruction) bool { return i == coll.Latch.Instrs[len(coll.Latch.Instrs)-1] },
+	// every iteration passes the select; the loop is left only through its normal exit
+	if x, _ := an.Cut(an.CutQuery{From: coll.iterStart, Target: coll.iterEnd,
 		AcceptInstr: func(i ssa.Instruction) bool { return i == ssa.Instruction(sel) }}); x != nil {
 		c.R.Fail(rule, Fn(fn), c.Pos(sel), "an iteration of the collector loop can skip the receive", "one blocking receive per iteration", nil)
 		return false
 	}
-	for b := range coll.Body {
+	for b := range coll.body {
 		for _, s := range b.Succs {
-			if !coll.Body[s] && !(b == coll.Latch && s == coll.Done) {
+			if !coll.body[s] && !coll.normalExit(b, s) && !coll.backEdge(b, s) {
 				// leaving the loop early: allowed only into a block that panics (synthetic select fall-through)
 				if _, isPanic := s.Instrs[len(s.Instrs)-1].(*ssa.Panic); isPanic {
 					continue
@@ -243,21 +283,83 @@ func (c *Ctx) JoinedFork(rule string, fn *ssa.Function) bool {
 	// returns after the first go are reachable only through the collector's completion
 	if x, path := an.Cut(an.CutQuery{From: an.After(goIns), Target: func(i ssa.Instruction) bool { _, ok := i.(*ssa.Return); return ok },
 		AcceptEdge: func(b *ssa.BasicBlock, i int, a *an.Atom) bool {
-			if b == coll.Latch && b.Succs[i] == coll.Done {
-				return true
-			}
-			// the collector's pre-header false edge [W <= 0] cannot be taken once a worker was started under [0 < W]
-			if b == coll.Pre && b.Succs[i] == coll.Done {
-				return true
-			}
-			return false
+			// normal completion; or the zero-iteration bypass, which cannot be taken once a worker was started under [0 < W]
+			return coll.normalExit(b, b.Succs[i]) || coll.bypass(b, b.Succs[i])
 		}}); x != nil {
 		c.R.Fail(rule, Fn(fn), c.Pos(x), "the helper can return while workers are still running", "return only after one receive per started worker", an.PathString(c.Pos, path))
 		return false
 	}
-	// the collector pre-header is the spawn loop's continuation: its guard uses the same bound
 	c.R.OK(rule, Fn(fn), c.P.FuncPos(fn), "joined fork: one goroutine per iteration of a loop bounded by W; each sends exactly once after its work returned; the helper performs W blocking receives on those channels before returning")
 	return true
+}
+
+// chanID identifies a channel in the fork helper's frame: the cell holding it (captured variables) or the value itself.
+func chanID(v ssa.Value, isCell bool) ssa.Value {
+	if isCell {
+		return v
+	}
+	if u, ok := v.(*ssa.UnOp); ok && u.Op == token.MUL {
+		return u.X
+	}
+	if ct, ok := v.(*ssa.ChangeType); ok {
+		return chanID(ct.X, false)
+	}
+	return v
+}
+
+// cloop is a counted loop in either of the two SSA shapes (rotated `for range n`, or header-tested range/3-clause loops).
+type cloop struct {
+	body       map[*ssa.BasicBlock]bool
+	bound      ssa.Value
+	iterStart  an.Point
+	iterEnd    func(ssa.Instruction) bool
+	normalExit func(b, s *ssa.BasicBlock) bool
+	backEdge   func(b, s *ssa.BasicBlock) bool
+	bypass     func(b, s *ssa.BasicBlock) bool
+	runs       func(W ssa.Value) bool // the loop performs exactly W iterations
+}
+
+func cloopOfRot(l *RotLoop) *cloop {
+	last := l.Latch.Instrs[len(l.Latch.Instrs)-1]
+	return &cloop{
+		body:       l.Body,
+		bound:      l.Bound,
+		iterStart:  an.Point{Block: l.Head, Idx: 0},
+		iterEnd:    func(i ssa.Instruction) bool { return i == last },
+		normalExit: func(b, s *ssa.BasicBlock) bool { return b == l.Latch && s == l.Done },
+		backEdge:   func(b, s *ssa.BasicBlock) bool { return b == l.Latch && s == l.Head },
+		bypass:     func(b, s *ssa.BasicBlock) bool { return b == l.Pre && s == l.Done },
+		runs:       func(W ssa.Value) bool { return l.Bound == W },
+	}
+}
+
+func cloopOfLoop(l *Loop) *cloop {
+	body := map[*ssa.BasicBlock]bool{}
+	for b := range l.Body {
+		if l.InBodyProper(b) {
+			body[b] = true
+		}
+	}
+	first := l.Header.Instrs[0]
+	return &cloop{
+		body:       body,
+		bound:      l.Bound,
+		iterStart:  an.Point{Block: l.BodyFirst, Idx: 0},
+		iterEnd:    func(i ssa.Instruction) bool { return i == first },
+		normalExit: func(b, s *ssa.BasicBlock) bool { return b == l.Header && s == l.Exit },
+		backEdge:   func(b, s *ssa.BasicBlock) bool { return s == l.Header },
+		bypass:     func(b, s *ssa.BasicBlock) bool { return false },
+		runs: func(W ssa.Value) bool {
+			if l.Bound == W {
+				return true
+			}
+			if mk, ok := l.BoundLen.(*ssa.MakeSlice); ok && mk.Len == W {
+				// for i := range make([]T, W): the slice header is not reassigned (exact root)
+				return true
+			}
+			return false
+		},
+	}
 }
 
 // ScatterHelper returns util.Scatter.
